@@ -702,3 +702,45 @@ Proof.
   - vm_compute. reflexivity.
   - vm_compute. reflexivity.
 Qed.
+
+(* ---------------------------------------------------------------------------------------------------------------------------------
+   phase 5: the container level normalisation, source-derived (Proofs/GenExtrapolationNormEq.v).
+   ExtrapolationGridSliceContainer.get_normalized_grid_levels and its private recursion are translated from Extrapolation.py at every
+   run; the results of the accessors self.get_grid() / self.get_grid_levels() / self.__assert_size() are parameters (option T,
+   None = raises; assumed pure).  The generated function IS the model's normalized_levels (which container_final_from and the C11
+   container theorems use) on every grid, and the positional-level theorem holds for what the source says now. *)
+From SG Require Import Proofs.GenExtrapolationNormEq.
+Open Scope Qc_scope.
+Theorem C11_gen_normalized_levels_rec_is_model : forall fuel fuel' start stop level,
+  (1 <= start)%nat -> (stop + 1 - start < fuel)%nat -> (stop + 1 - start < fuel')%nat ->
+  ExtrapolationGridSliceContainer___get_normalized_grid_levels_rec fuel (py_Z2Qc (Z.of_nat start)) (py_Z2Qc (Z.of_nat stop))
+    (Z.of_nat level) = Some (map Z.of_nat (norm_levels_rec fuel' start stop level)).
+Proof. exact gen_norm_rec. Qed.
+Theorem C11_gen_normalized_grid_levels_is_model : forall (grid : list Qc) (levels : option (list Z)) (size_ok : option unit),
+  ExtrapolationGridSliceContainer_get_normalized_grid_levels (Some grid) levels size_ok =
+  if (length grid =? 2)%nat then levels
+  else if Nat.odd (length grid) && (3 <=? length grid)%nat then
+    match size_ok with Some _ => Some (map Z.of_nat (normalized_levels (length grid))) | None => None end
+  else None.
+Proof. exact gen_normalized_grid_levels_is_model. Qed.
+Theorem C11_gen_normalized_grid_levels_positional : forall K grid levels,
+  (1 <= K)%nat -> length grid = S (2 ^ K) ->
+  exists nl, ExtrapolationGridSliceContainer_get_normalized_grid_levels (Some grid) levels (Some tt) = Some (map Z.of_nat nl) /\
+    length nl = length grid /\ nth 0 nl 1%nat = 0%nat /\ nth (2 ^ K) nl 1%nat = 0%nat /\
+    forall i, (1 <= i < 2 ^ K)%nat ->
+      let l := nth i nl 0%nat in (1 <= l <= K)%nat /\ Nat.divide (2 ^ (K - l)) i /\ ~ Nat.divide (2 ^ (S K - l)) i.
+Proof. exact gen_normalized_grid_levels_positional. Qed.
+Print Assumptions C11_gen_normalized_levels_rec_is_model.
+Print Assumptions C11_gen_normalized_grid_levels_is_model.
+Print Assumptions C11_gen_normalized_grid_levels_positional.
+(* non-vacuity: the docstring's container [0.5, 0.625, 0.75] (levels 1,3,2) is normalised to [0,1,0]; nine points to the dyadic
+   pattern; a unit container returns its own levels; an even / too small point count raises *)
+Example C11_gen_normalized_levels_nonvacuous :
+  ExtrapolationGridSliceContainer_get_normalized_grid_levels (Some [q 1 2; q 5 8; q 3 4]) (Some [1; 3; 2]%Z) (Some tt)
+    = Some [0; 1; 0]%Z /\
+  ExtrapolationGridSliceContainer_get_normalized_grid_levels (Some (map (fun k => q (Z.of_nat k) 8) (seq 0 9))) None (Some tt)
+    = Some [0; 3; 2; 3; 1; 3; 2; 3; 0]%Z /\
+  ExtrapolationGridSliceContainer_get_normalized_grid_levels (Some [0; 1]) (Some [4; 7]%Z) None = Some [4; 7]%Z /\
+  ExtrapolationGridSliceContainer_get_normalized_grid_levels (Some [0; q 1 4; q 1 2; 1]) (Some [0; 2; 1; 0]%Z) (Some tt) = None /\
+  ExtrapolationGridSliceContainer_get_normalized_grid_levels (Some [0; q 1 2; 1]) None None = None.
+Proof. repeat split; vm_compute; reflexivity. Qed.
